@@ -24,6 +24,7 @@ type Env struct {
 	where string
 	oldNames map[string]TV // names as of entry (parameters)
 	resolve  func(name string) (TV, bool)
+	resolveSt func(st *State, name string) (TV, bool) // the same, read in a given state (old(x))
 }
 
 func (env *Env) child() *Env {
@@ -245,7 +246,13 @@ func (e *Enc) evalIdent(env *Env, name string) TV {
 	if tv, ok := env.names[name]; ok {
 		return tv
 	}
-	if env.resolve != nil {
+	if env.resolveSt != nil && env.st != nil {
+		// locals and captured variables, read in the state this environment
+		// evaluates in (old(x) switches the state)
+		if tv, ok := env.resolveSt(env.st, name); ok {
+			return tv
+		}
+	} else if env.resolve != nil {
 		if tv, ok := env.resolve(name); ok {
 			return tv
 		}
@@ -315,6 +322,61 @@ func (e *Enc) evalSelector(env *Env, n *ast.SelectorExpr) TV {
 	}
 	b := e.eval(env, n.X)
 	return e.selectField(env, b, n.Sel.Name)
+}
+
+// evalAddr: the address of x.f (x a pointer to a struct, or x.f itself a
+// struct field chain) or of a package-level variable; used by held().
+func (e *Enc) evalAddr(env *Env, x ast.Expr) Val {
+	switch n := x.(type) {
+	case *ast.Ident:
+		if env.pkg != nil {
+			if v, ok := env.pkg.Scope().Lookup(n.Name).(*types.Var); ok {
+				if g := e.L.globalByObj(v); g != nil {
+					return Ptr{K: pGlobal, Glob: g, Elem: v.Type()}
+				}
+			}
+		}
+	case *ast.SelectorExpr:
+		// base: a pointer value (x, x.r with r a pointer field) or the address
+		// of an embedded struct (x.inner)
+		var base Val
+		var bt types.Type
+		b := e.eval(env, n.X)
+		if b.Ty != nil {
+			if _, isPtr := b.Ty.Underlying().(*types.Pointer); isPtr {
+				base, bt = b.V, b.Ty
+			}
+		}
+		if base == nil {
+			if inner, ok := n.X.(*ast.SelectorExpr); ok {
+				if p, ok := e.evalAddr(env, inner).(Ptr); ok {
+					base, bt = p, types.NewPointer(p.Elem)
+				}
+			}
+		}
+		p, ok := base.(Ptr)
+		if !ok || bt == nil {
+			e.evalFail(env, "address of a field of %T", base)
+		}
+		pt, ok := bt.Underlying().(*types.Pointer)
+		if !ok {
+			e.evalFail(env, "address of a field of non-pointer %s", bt)
+		}
+		st, ok := pt.Elem().Underlying().(*types.Struct)
+		if !ok {
+			e.evalFail(env, "address of a field of non-struct %s", pt.Elem())
+		}
+		for i := 0; i < st.NumFields(); i++ {
+			if st.Field(i).Name() == n.Sel.Name {
+				np := p
+				np.Path = append(append([]int(nil), p.Path...), i)
+				np.Elem = st.Field(i).Type()
+				return np
+			}
+		}
+	}
+	e.evalFail(env, "cannot take the address of this expression")
+	return nil
 }
 
 func (e *Enc) selectField(env *Env, b TV, name string) TV {
@@ -701,6 +763,30 @@ func (e *Enc) evalCall(env *Env, n *ast.CallExpr) TV {
 	case "sameArray":
 		a, b := e.asSl(env, e.eval(env, n.Args[0])), e.asSl(env, e.eval(env, n.Args[1]))
 		return TV{V: Sc{eq(a.Arr, b.Arr)}, Ty: boolT}
+	case "held", "rheld":
+		// held(x.mu): the mutex is locked by this goroutine (lockset.go)
+		var pv Val
+		func() {
+			defer func() {
+				if r := recover(); r != nil {
+					if _, ok := r.(evalError); ok {
+						pv = nil
+						return
+					}
+					panic(r)
+				}
+			}()
+			pv = e.evalAddr(env, n.Args[0])
+		}()
+		p, ok := pv.(Ptr)
+		if !ok {
+			e.evalFail(env, "held() expects a mutex field (x.mu) or package-level mutex")
+		}
+		key, idx, ok := e.lockKey(p, name == "rheld")
+		if !ok {
+			e.evalFail(env, "held(): mutex of unknown identity")
+		}
+		return TV{V: Sc{sel(e.getVar(env.st, key, lockSort), idx)}, Ty: boolT}
 	case "arrayOf", "offsetOf":
 		// identity of a slice's backing array / its offset in it (as numbers, so
 		// that ghost variables can remember a slice seen earlier)
